@@ -21,13 +21,13 @@ What is proved, and what is not:
     (`C02_small_scope`, kernel evaluation — a bounded statement, labelled as such)
   * first-occurrence order, lists of ANY non-zero length: the rows of a splitter projected to the kept fields are the rows of
     the reduced tree indexed by the mixed-radix pattern `pat shape mask` (`claimA`, Lemmas7) and `nub (pat …) = range (cnt …)`
-    (`nub_pat`, Lemmas6); hence for every splitter over ≤ 4 distinct fields the public output IS the reference's stable
+    (`nub_pat`, Lemmas6); hence for every splitter over distinct fields (any number) the public output IS the reference's stable
     group-by on the fields outside `combiner_all`, provided that set is closed under inner-product links
     (`C02_order_partial`, decidable hypothesis); with `C02_linked_le4` this gives the property itself for every
     binary-bracketed shape over ≤ 4 canonically labelled fields (`C02_full_le4`)
   * NOT proved: `C02_full_statement` for arbitrary field names / n-ary spellings / more than four fields in one theorem — what
     is missing is a general proof that `splits_groups`' `combiner_all` equals the reference's closure (established only by
-    evaluating the 51 shapes), and `KeysOK` of the reduced tree beyond four fields.
+    evaluating the 51 shapes).
 -/
 namespace PydraModel.StateAlg
 open Spec
@@ -36,7 +36,7 @@ open Spec
     stable group-by.  NOT proved in general (see the header). -/
 def C02_full_statement : Prop :=
   ∀ (env : ShapeEnv) (s : Spl) (comb : List Name) (p : Prepared) (jobs : List (List (Name × Nat))),
-    WellFormed s → KeysOK s → comb ≠ [] → (∀ c ∈ comb, c ∈ s.fields) → (∀ n ∈ s.fields, ∃ k, env n = [k + 1]) →
+    WellFormed s → comb ≠ [] → (∀ c ∈ comb, c ∈ s.fields) → (∀ n ∈ s.fields, ∃ k, env n = [k + 1]) →
     prepareStates env s comb = .ok p → expandInd env s = some jobs →
     publicGroups p true = combineSpec s comb jobs
 
@@ -182,32 +182,22 @@ theorem C02_linked_le4 : ∀ t ∈ shapesLe4, ∀ C ∈ subsets t.fields, C ≠ 
   decide
 
 /-- the reduced RPN is again the RPN of a tree, so the machine theorems of C01 apply to it: its rows are the reduced tree's
-    nested loops and its keys are the remaining fields (trees with ≤ 4 fields are always `KeysOK`) -/
-theorem C02_reduced_splits (env : ShapeEnv) (t' : Bin) (h : t'.nleaves ≤ 4) :
+    nested loops and its keys are the remaining fields — for every tree -/
+theorem C02_reduced_splits (env : ShapeEnv) (t' : Bin) :
     splits env t'.rpn =
       match evalBin env t' with
       | .error e => .error e
-      | .ok v => .ok (v.1, t'.fields) := by
-  rw [splits_rpn]
-  cases evalBin env t' with
-  | error e => rfl
-  | ok v =>
-    cases t' with
-    | leaf n => simp [Bin.fields]
-    | node d l r =>
-      have := evKeys_aligned (.node d l r) true [] (keysOK_le4 _ h) (fun _ => rfl)
-      simp only [List.nil_append] at this
-      simp [this]
+      | .ok v => .ok (v.1, t'.fields) := splits_rpn env t'
 
-/-- FULL for the partition clauses at the property's quantifier and for lists of ANY length: for every well-formed splitter
-    over at most four distinct fields, every combiner and every shape environment, if `prepare_states` succeeds, there are
+/-- FULL for the partition clauses, for lists of ANY length and ANY number of fields: for every well-formed splitter
+    over distinct fields, every combiner and every shape environment, if `prepare_states` succeeds, there are
     jobs and some axis remains, then what the public path returns is `final_combined_ind_mapping`, one group per row of the
     reduced tree's expansion, and every job lies in exactly one group — the one whose row is the job's projection to the
     remaining keys — in enumeration order: no output lost, duplicated or placed in a wrong group.
     (Not covered here: that the groups appear in first-occurrence order, and that `keys_final` are the fields outside the
     reference's closure — the latter is `C02_linked_le4` + `C02_remove`.) -/
-theorem C02_public_partition_le4 (env : ShapeEnv) (s : Spl) (comb : List Name) (p : Prepared)
-    (hwf : WellFormed s) (h4 : s.fields.length ≤ 4) (hnd : s.fields.Nodup) (hcomb : comb.isEmpty = false)
+theorem C02_public_partition (env : ShapeEnv) (s : Spl) (comb : List Name) (p : Prepared)
+    (hwf : WellFormed s) (hnd : s.fields.Nodup) (hcomb : comb.isEmpty = false)
     (hp : prepareStates env s comb = .ok p) (hjobs : p.statesInd.isEmpty = false) (hrem : p.indLFinal.isEmpty = false) :
     publicGroups p true = .grouped p.mapping ∧
     p.mapping.length = p.indLFinal.length ∧
@@ -216,7 +206,6 @@ theorem C02_public_partition_le4 (env : ShapeEnv) (s : Spl) (comb : List Name) (
     (∀ g (hg : g < p.mapping.length), p.mapping[g].Pairwise (· < ·) ∧ ∀ j ∈ p.mapping[g], j < p.statesInd.length) := by
   obtain ⟨t, ht⟩ := normalize_of_wf s hwf
   have hf := fields_normalize s t ht
-  have ht4 : t.nleaves ≤ 4 := by rw [nleaves_eq_fields, hf]; exact h4
   unfold prepareStates at hp
   simp only [toRPN_eq ht] at hp
   split at hp
@@ -224,7 +213,7 @@ theorem C02_public_partition_le4 (env : ShapeEnv) (s : Spl) (comb : List Name) (
   split at hp
   · simp at hp
   rename_i go _
-  rw [C02_reduced_splits env t ht4] at hp
+  rw [C02_reduced_splits env t] at hp
   cases he : evalBin env t with
   | error e => simp [he] at hp
   | ok v =>
@@ -241,13 +230,8 @@ theorem C02_public_partition_le4 (env : ShapeEnv) (s : Spl) (comb : List Name) (
           have hf0 := removeT_fields go.combinerAll t
           rw [hrt] at hf0
           have hf' : t'.fields = List.filter (fun x => !go.combinerAll.contains x) t.fields := hf0
-          have ht'4 : t'.nleaves ≤ 4 := by
-            rw [nleaves_eq_fields, hf']
-            have := List.length_filter_le (fun x => !go.combinerAll.contains x) t.fields
-            rw [nleaves_eq_fields] at ht4
-            omega
           simp only [hrt, rpnOpt] at hp
-          rw [C02_reduced_splits env t' ht'4] at hp
+          rw [C02_reduced_splits env t'] at hp
           cases he' : evalBin env t' with
           | error e => simp [he'] at hp
           | ok v' =>
@@ -278,7 +262,7 @@ theorem C02_public_partition_le4 (env : ShapeEnv) (s : Spl) (comb : List Name) (
 
 /-- PARTIAL (explicit decidable hypothesis `maskOf p.combinerAll t ≠ none`: the set of combined fields computed by the code is
     closed under inner-product links, i.e. no inner product pairs a combined axis with an uncombined one).
-    For every well-formed splitter over at most four distinct fields, every non-empty combiner and plain lists of ANY
+    For every well-formed splitter over distinct fields (ANY number of them), every non-empty combiner and plain lists of ANY
     non-zero length: what the public path returns is the reference's stable group-by of the jobs on their projection to the
     fields outside `combiner_all` — one group per distinct assignment of the remaining axes, in FIRST-OCCURRENCE
     (enumeration) order, each holding its jobs in enumeration order; one flat list when nothing remains.
@@ -287,7 +271,7 @@ theorem C02_public_partition_le4 (env : ShapeEnv) (s : Spl) (comb : List Name) (
     Missing for `C02_full_statement`: `combiner_all` = the reference's closure (and hence the hypothesis) beyond the
     ≤ 4-field shapes evaluated in `C02_linked_le4`. -/
 theorem C02_order_partial (env : ShapeEnv) (s : Spl) (comb : List Name) (p : Prepared)
-    (hwf : WellFormed s) (h4 : s.fields.length ≤ 4) (hnd : s.fields.Nodup) (hcomb : comb.isEmpty = false)
+    (hwf : WellFormed s) (hnd : s.fields.Nodup) (hcomb : comb.isEmpty = false)
     (h1 : ∀ n ∈ s.fields, ∃ k, env n = [k + 1])
     (hp : prepareStates env s comb = .ok p)
     (hmask : ∀ t, normalize s = some t → (maskOf p.combinerAll t).isSome = true) :
@@ -295,7 +279,6 @@ theorem C02_order_partial (env : ShapeEnv) (s : Spl) (comb : List Name) (p : Pre
   obtain ⟨t, ht⟩ := normalize_of_wf s hwf
   have hmask := hmask t ht
   have hf := fields_normalize s t ht
-  have ht4 : t.nleaves ≤ 4 := by rw [nleaves_eq_fields, hf]; exact h4
   have h1t : ∀ n ∈ t.fields, ∃ k, env n = [k + 1] := fun n hn => h1 n (hf ▸ hn)
   have hndt : t.fields.Nodup := hf ▸ hnd
   unfold prepareStates at hp
@@ -305,7 +288,7 @@ theorem C02_order_partial (env : ShapeEnv) (s : Spl) (comb : List Name) (p : Pre
   split at hp
   · simp at hp
   rename_i go _
-  rw [C02_reduced_splits env t ht4] at hp
+  rw [C02_reduced_splits env t] at hp
   cases he : evalBin env t with
   | error e => simp [he] at hp
   | ok v =>
@@ -340,13 +323,8 @@ theorem C02_order_partial (env : ShapeEnv) (s : Spl) (comb : List Name) (p : Pre
           have hf0 := removeT_fields go.combinerAll t
           rw [hrt] at hf0
           have hf' : t'.fields = List.filter (fun x => !go.combinerAll.contains x) t.fields := hf0
-          have ht'4 : t'.nleaves ≤ 4 := by
-            rw [nleaves_eq_fields, hf']
-            have := List.length_filter_le (fun x => !go.combinerAll.contains x) t.fields
-            rw [nleaves_eq_fields] at ht4
-            omega
           simp only [hrt, rpnOpt] at hp
-          rw [C02_reduced_splits env t' ht'4] at hp
+          rw [C02_reduced_splits env t'] at hp
           cases he' : evalBin env t' with
           | error e => simp [he'] at hp
           | ok v' =>
@@ -535,7 +513,7 @@ theorem C02_full_le4 (env : ShapeEnv) (t : Bin) (C : List Name) (p : Prepared)
   have h4 : (ofBin t).fields.length ≤ 4 ∧ (ofBin t).fields.Nodup := by
     rw [← hf]
     exact shapesLe4_fields t ht
-  have := C02_order_partial env (ofBin t) C p hwf h4.1 h4.2 hcomb (fun n hn' => h1 n (hf ▸ hn')) hp
+  have := C02_order_partial env (ofBin t) C p hwf h4.2 hcomb (fun n hn' => h1 n (hf ▸ hn')) hp
     (fun t' ht' => by
       rw [hn] at ht'
       cases ht'
